@@ -306,12 +306,12 @@ impl Prop for C16 {
     fn lanes(tier: Tier) -> Vec<Lane> {
         vec![
             Lane::new("main", tier.pick(4_000_000, 60_000_000))
-                .cap(tier.pick(60, 600))
+                .cap(tier.pick(150, 1200))
                 .floor(tier.pick(20_000, 1_000_000)),
             // limits near the ends of usize: the validity test and the window arithmetic must not
             // overflow (few distinct configurations, hence a small lane)
             Lane::new("extreme", tier.pick(20_000, 200_000))
-                .cap(tier.pick(30, 120))
+                .cap(tier.pick(90, 300))
                 .floor(tier.pick(1_000, 10_000)),
         ]
     }
